@@ -4,6 +4,7 @@ import (
 	"fmt"
 	"go/types"
 	"math/big"
+	"os"
 	"strings"
 
 	"golang.org/x/tools/go/ssa"
@@ -19,6 +20,9 @@ func (c *FnCtx) frameCheck(st *State, key string, ref, lo, hi *Term, pos string)
 	f := c.f
 	var alts []*Term
 	alts = append(alts, c.isFresh(ref))
+	if lo != nil && hi != nil {
+		alts = append(alts, f.Le(hi, lo)) // an empty range writes nothing
+	}
 	for _, a := range c.assigns {
 		g := f.True()
 		if a.cond != nil {
@@ -611,7 +615,19 @@ func (c *FnCtx) appendSeq(st *State, seq Sort, sliceT types.Type, s, add *Term, 
 	if c.dry > 0 {
 		c.writeLog = append(c.writeLog, writeRec{memKey(seq), nref})
 	}
-	return f.MkSl(tref, f.Ite(fits, off, f.Int(0)), newLen, f.Ite(fits, cp, ncap))
+	toff := f.Ite(fits, off, f.Int(0))
+	// Derived facts about the result (consequences of the sequence axioms under the slice's well-formedness,
+	// stated explicitly because the solvers do not find the extensionality steps on their own):
+	// the old elements are kept, the new ones follow.
+	guard := f.And(f.Le(f.Int(0), off), f.Le(f.Int(0), ln), f.Le(f.Add(off, ln), f.SLen(reg)),
+		f.Implies(fits, f.Le(f.Add(off, newLen), f.SLen(reg))))
+	if os.Getenv("GOVC_NO_DERIVED") == "" {
+		c.assume(st, f.Implies(guard, f.And(
+			f.SEq(f.SSub(content, toff, f.Add(toff, ln)), old),
+		f.SEq(f.SSub(content, f.Add(toff, ln), f.Add(toff, newLen)), add),
+			f.SEq(f.SSub(content, toff, f.Add(toff, newLen)), f.SCat(old, add)))))
+	}
+	return f.MkSl(tref, toff, newLen, f.Ite(fits, cp, ncap))
 }
 
 func (fr *frame) copyBuiltin(x *ssa.Call, args []Value, st *State, pos string) Value {
